@@ -707,6 +707,12 @@ func packagePrepareWalkFn(root string, ignoreRules *ignorefiles.Ruleset, emptied
 				return fmt.Errorf("invalid .terraformignore rules: %#w", err)
 			}
 			if ignored.Excluded {
+				if !ignored.Dominating {
+					// A later negation may re-include something below this
+					// directory, so its content has to be judged path by path.
+					*emptied = append(*emptied, absPath)
+					return nil
+				}
 				err := os.RemoveAll(absPath)
 				if err != nil {
 					return fmt.Errorf("failed to remove ignored file %s: %s", relPath, err)
